@@ -479,24 +479,82 @@ def impl_case(case):
     observation carries 'protocol' (reported by compare; the checkers still judge the outputs)."""
     import zlib
     steps = steps_of(case)
+    keep = bool(case.get("keep"))
     try:
         r = Runner(case)
-        out = []
+        r.keep_results = keep
+        out, kept = [], []
         for st in steps:
             script = oracles.Script([("shuffle", list(pi)) for pi in st["pis"]])
             out.append(r.step(st["jds"], script, False, case.get("rows", "tuple")))
+            kept.append(r.last_out)
+        if keep:
+            reobserve(r, out, kept)
         return {"steps": out}
     except oracles.OracleProtocol as e:
         msg = "%s: %s" % (type(e).__name__, e)
     r = Runner(case)
-    out = []
+    r.keep_results = keep
+    out, kept = [], []
     for i, st in enumerate(steps):
         orc = FreeOracle(zlib.crc32(repr((case.get("tag"), st["jds"], i)).encode()))
         with free_scripted(orc):
             o = r.step(st["jds"], orc, True, case.get("rows", "tuple"))
         o["protocol"] = msg + " (asked: %s)" % ",".join(orc.asked[:6])
         out.append(o)
+        kept.append(r.last_out)
+    if keep:
+        reobserve(r, out, kept)
     return {"steps": out}
+
+
+# case['keep']: the caller KEEPS every returned object (untouched) while it generates again on the same algorithm object,
+# and reads them all after the last call.  What a kept result holds then is judged by the same row checker, against the
+# callback results logged for the call that returned it (results of successive calls must not alias each other).
+# joint_degrees is left out: the edge list carries the caller's own jds list, which a history refills in place.
+LATER_FIELDS = ("edges", "names", "ids", "nodes", "net_edges")
+
+
+def reobserve(runner, obs_list, kept):
+    for o, res in zip(obs_list, kept):
+        try:
+            now = runner.read_out(res)
+            o["later"] = {f: now[f] for f in LATER_FIELDS if f in now}
+        except Exception as e:  # noqa: BLE001
+            o["later"] = {"edges": [-1], "names": [], "ids": [], "nodes": [], "net_edges": [], "error": type(e).__name__}
+
+
+def later_changed(o):
+    lt = o.get("later") if isinstance(o, dict) else None
+    return lt is not None and any(f in o and o[f] != lt.get(f) for f in LATER_FIELDS)
+
+
+def later_check_calls(case, impl_obs, vacuous):
+    """one more c02_check per step of a 'keep' case: the rows the kept result shows after the last call"""
+    if not case.get("keep") or not isinstance(impl_obs, dict):
+        return []
+    calls = []
+    for st, o in zip(steps_of(case), impl_obs["steps"]):
+        t = None
+        if isinstance(o, dict) and o.get("later") is not None:
+            o2 = dict(o)
+            o2.update({f: v for f, v in o["later"].items() if f in LATER_FIELDS})
+            t = c02_check_tree(st, o2)
+        calls.append(("c02_check", t if t is not None else vacuous))
+    return calls
+
+
+def later_verdict(case, impl_obs, raws_later, valid):
+    """raws_later: the answers to later_check_calls; valid[i]: the hypotheses hold for step i"""
+    if not case.get("keep") or not isinstance(impl_obs, dict):
+        return None
+    n = len(impl_obs["steps"])
+    for i, (o, v) in enumerate(zip(impl_obs["steps"], raws_later)):
+        if valid[i] and v != 1 and later_changed(o):
+            return ("c02_check rejected the result of call %d of %d on the same algorithm object when it was read again after "
+                    "the last call (the caller kept it untouched): its rows are no longer, block by block, the edges the build "
+                    "callbacks returned for that call, with its topology's name and one private id per instance" % (i + 1, n))
+    return None
 
 
 # ------------------------------------------------------------------ model side
@@ -723,6 +781,10 @@ def compare_case(case, impl, model):
         d = compare_run(st, o, m)
         if d:
             return d if len(steps) == 1 else "step %d of %d on the same object: %s" % (i, len(steps), d)
+    for i, o in enumerate(impl["steps"]):
+        if later_changed(o):
+            return ("the result of call %d of %d (kept untouched by the caller) changed when the same algorithm object "
+                    "generated again" % (i + 1, len(steps)))
     return None
 
 
@@ -755,6 +817,8 @@ def history_case(rng, tag):
     c["steps"] = steps
     c["rows"] = rng.choice(["tuple", "list"])
     c["decoy"] = rng.random() < 0.5
+    if rng.random() < 0.4:
+        c["keep"] = True         # the returned objects are kept untouched and read again after the last call
     return c
 
 
